@@ -61,7 +61,7 @@ def env_histories(tmp, name, overrides, timeout=600):
     return out, r["states"], r["generated"]
 
 
-HOSTS = {"h1": "fe80::a1", "h2": "fe80::a2", "h3": "fe80::a3"}
+HOSTS = {"h1": "fe80::a1", "h2": "2001:db8::a2", "h3": "fd00::a3"}
 
 
 def _dst(d):
@@ -85,10 +85,10 @@ def history_to_steps(h, grid, tail=7000, jitter=None, snap=True, hl_for_bad=None
         if op == "rs":
             steps.append({"op": "rs", "src": _dst(e["src"])})
         elif op == "badhl":
-            steps.append({"op": "rs", "src": "fe80::bad", "hl": hl_for_bad[nbad % len(hl_for_bad)]})
+            steps.append({"op": "rs", "src": ["fe80::bad", "unspec"][nbad % 2], "hl": hl_for_bad[nbad % len(hl_for_bad)]})
             nbad += 1
         elif op in ("ns", "na"):
-            steps.append({"op": "msg", "kind": op, "src": "fe80::cc"})
+            steps.append({"op": "msg", "kind": op, "src": ["fe80::cc", "unspec", "2001:db8::cc"][i % 3]})
         elif op == "rasame":
             steps.append({"op": "msg", "kind": "ra", "variant": "same", "src": "fe80::dd"})
         elif op == "radiff":
@@ -140,7 +140,7 @@ def run_scenarios(tmp, scenarios, tag, timeout=1800, nshards=None):
     return outs
 
 
-TRACE_CONSTS = dict(MinDelay=3000, MaxRADelay=500, BackoffUnit=50, Retries=5)
+TRACE_CONSTS = dict(MinDelay=3000, MaxRADelay=500, BackoffUnit=50, Retries=5, InitCap=16000)
 
 
 def validate(tmp, out_files, tag, ifis=("vf0",), consts=None, lines_per_batch=60000):
